@@ -18,6 +18,11 @@ type Obligation struct {
 	Conc  bool
 	PCLen int
 	Info  string // free-form detail for reports
+	// Lemmas: equalities the term T relies on (model values substituted for
+	// structure-determined subterms). They are proved first; if that fails,
+	// Fallback rebuilds T without substitution.
+	Lemmas   []*sym.Term
+	Fallback func() *sym.Term
 }
 
 // Observation is what the harness reported through vObserve.
